@@ -313,7 +313,7 @@ def c13_jobs(tier):
 
 
 SPECS["C13"] = dict(
-    run=std_run, jobs=c13_jobs,
+    run=std_run, jobs=c13_jobs, post=reg_post([("c13_nullspace_start.cpp", ())]),
     explanation=("Memory safety / work bound / index discipline of compute(), decided symbolically on the real restart logic: (1) restart-size function by state injection - the real nev_adjusted() "
                  "and restart() are run from an ARBITRARY Ritz state (symbolic values and estimates; for the general solver every real/complex pattern with adjacent conjugates) for every legal (nev,ncv) "
                  "with ncv<=8 and every nconv in [0,nev): 1 <= k < ncv, k >= nev, no conjugate pair split, compress/refactorize called inside their contracts, the factorization is valid at ncv afterwards; "
@@ -361,7 +361,7 @@ SPECS["C07"] = dict(
             "thorough": {"n": "3,4", "steps": "all incl. breakdown", "init": "n=2,3 all vectors incl. tolerance obligations", "compress": "n=3,4", "two-step breakdown": "n=4"}},
     outside=[ROUNDING + " (so loss of orthogonality, the adequacy of eps-level thresholds and ||V'V-I||~1 on rank-deficient inputs are not visible)", "double-shift compress (C08 covers DoubleShiftQR itself)",
              "sequences of more than one step are covered by induction only under exact arithmetic", "complex Hermitian scalars"],
-    policy=dict(events=lambda e, case: "ignore" if (e.get("site", "").endswith("Arnoldi::init") and e["kind"] == "div0") else "violation", allow_cut=False),
+    policy=dict(events="violation", allow_cut=False),
     technique="symbolic execution of the real Arnoldi/Lanczos templates for one inductive step from an arbitrary valid state (constraint-free parametrisation); z3 proves the Krylov invariant entry-wise",
     level_text="bounded inductive-step verification in exact real arithmetic: every valid factorization state of size n<=4 (fixed rational frame), every branch of one step / init / single-shift compress",
     level_note="exact arithmetic; n<=4; one fixed orthogonal frame per n; trusted: g++, Eigen, z3/cvc5, symx",
